@@ -403,7 +403,22 @@ fn exec(store: &TensorStore, op: &Op) -> Res {
         },
         Op::Ex(k) => Res::Bool(store.exists(&k.real())),
         Op::Scan(p) => {
-            let mut ks: Vec<Key> = store.scan(&p.real()).iter().map(|s| Key::from_real(s)).collect();
+            let pfx = p.real();
+            let raw = store.scan(&pfx);
+            // the sibling prefix scans, read in the same atomic step (they have no yield hook, every
+            // other worker is parked): `scan_count` = the number of keys `scan` lists;
+            // `scan_filter_map` = the listed keys that are in the metadata slab, in byte order
+            let count = store.scan_count(&pfx);
+            let mut in_md: Vec<String> = raw.iter().filter(|k| store.router().metadata.contains(k)).cloned().collect();
+            in_md.sort();
+            let sfm: Vec<String> = store.scan_filter_map(&pfx, |k, _| Some(k.to_string()));
+            if count != raw.len() {
+                return Res::Other(format!("sibling: scan_count({pfx:?}) = {count}, scan lists {} keys {raw:?}", raw.len()));
+            }
+            if sfm != in_md {
+                return Res::Other(format!("sibling: scan_filter_map({pfx:?}) = {sfm:?}, the keys scan lists that are in the metadata slab = {in_md:?}"));
+            }
+            let mut ks: Vec<Key> = raw.iter().map(|s| Key::from_real(s)).collect();
             ks.sort();
             ks.dedup();
             Res::Keys(ks)
@@ -1208,6 +1223,17 @@ impl Ctx<'_> {
                 self.rep.hit("overlapping_multi_step_op");
             }
         }
+        for r in &o.hist {
+            if let Res::Other(m) = &r.res {
+                if let Some(what) = m.strip_prefix("sibling: ") {
+                    self.violation(
+                        "tensor_store.scan_siblings/scan_count_or_scan_filter_map_differs_from_scan",
+                        "read in one atomic step with scan(prefix), scan_count(prefix) is not the number of keys scan lists, or scan_filter_map(prefix) is not the listed keys that are in the metadata slab",
+                        with(&input(), json!({"what": what, "real_history": o.hist_s})),
+                    );
+                }
+            }
+        }
         if o.deviated {
             self.rep.disagree(&format!("{stream}.schedule"), input(), "scripted thread was not parked", "schedule is executable");
         }
@@ -1345,6 +1371,10 @@ impl Ctx<'_> {
         //     CALL (for a durable write that waited for the mutex: the grant, not the log step) to
         //     its last step
         let hist: Vec<HRec> = o.hist.iter().map(|r| HRec { inv: r.call, ..r.clone() }).collect();
+        if hist.iter().any(|r| matches!(&r.res, Res::Other(m) if m.starts_with("sibling: "))) {
+            // already reported by `case` under the class of the sibling scans; the scan has no key list to judge
+            return self.durable_oracle(progs, wal, o, base, &[]);
+        }
         let (ok, budget) = linearizable(&hist);
         if budget {
             self.budget_hits += 1;
